@@ -157,6 +157,43 @@ def check_word(ctx, runner, w, count=True, hashed=False, engine=None):
     if len(w) >= 3 and engine:
         ctx.sample(engine + ":" + cls.split("(")[0], {"rule": rn, "word": list(w), "member": member})
     ctx.guard(judge, rn, w, out, specified, member)
+    if rn != META and len(w) <= 2 and h_sample(rn, w):
+        ctx.guard(judge_inner, runner, rn, w, specified, member)
+
+
+def h_sample(rn, w):
+    """every word of length <= 1, one in four of the others (by hash: the same words in every run)"""
+    from vf.runner import h64
+    return len(w) <= 1 or h64([rn, list(w)]) % 4 == 0
+
+
+def judge_inner(runner, rn, w, specified, member):
+    """the same parent as an INNER node of a valid host tree, validated with validate.tree from the host's root: the
+    outcome, the kind of error and the codes must be what validating the node on its own gives"""
+    def make():
+        n = build.make_node(runner.real, word=w)
+        return n
+    if member and any(a not in R.node_mappings for a in w):
+        return      # a permitted child that is no known element (C10's known closure pairs): the walk stops at that child
+    inner = build.inner_outcome(make)
+    if inner is None:
+        return
+    case = {"rule": rn, "word": list(w), "inner": True}
+    ff, cc = inner
+    if ff[0] == "EXC" or cc[0] == "EXC":
+        raise Violation("inner-node:foreign-exception", f"validate.tree from an ancestor: {ff if ff[0] == 'EXC' else cc}", case)
+    if ff[0] == "rule" and not isinstance(ff[1], ALLOWED_EXC):
+        raise Violation("inner-node:failfast-wrong-error-kind:" + type(ff[1]).__name__,
+                        f"validate.tree from an ancestor raised {type(ff[1]).__name__}: {ff[1]}", case)
+    if cc[0] == "errs":
+        for e in cc[1]:
+            if e[0].name not in ALLOWED_CODES:
+                raise Violation("inner-node:collecting-wrong-code:" + e[0].name, repr(e[:2])[:200], case)
+    if not specified:
+        return
+    if (ff[0] == "ok") != member or (cc[0] == "ok") != member:
+        raise Violation("inner-node:" + ("accepts-nonmember" if not member else "rejects-member"),
+                        f"language membership={member}; validate.tree from an ancestor: fail-fast {ff[0]}, collecting {cc[0]}", case)
 
 
 # ------------------------------------------------------------------ budgets
@@ -337,6 +374,8 @@ def hyp_shard(ctx, shard):
         if len(w) > 12:
             ctx.sample("hypothesis-long:" + cls.split("(")[0], {"rule": rn, "word": list(w), "member": member})
         judge(rn, w, out, specified, member)
+        if rn != META and len(w) <= 40:
+            judge_inner(r, rn, w, specified, member)
 
     hyp_search(ctx, "long-words", long_words(), body, n, shard=shard)
 
@@ -384,8 +423,11 @@ def replay(case):
     w = tuple(case["word"])
     try:
         specified, member = membership(rn, w)
-        out = Runner(rn).run(w)
+        r = Runner(rn)
+        out = r.run(w)
         judge(rn, w, out, specified, member)
+        if rn != META:
+            judge_inner(r, rn, w, specified, member)
     except Violation as v:
         return f"{v.bucket}: {v.message}"
     return None
